@@ -1091,6 +1091,9 @@ func c04Main(args []string) {
 			res.Samples = append(res.Samples, o)
 		}
 	}
+	if len(res.Samples) == 0 && len(outcomes) > 0 {
+		res.Samples = append(res.Samples, outcomes[0])
+	}
 	// ---- the file-step events of every crash run, for TLC (all processes of all runs are dead by now):
 	// status-file events with a crash marker per process (StatusFileTrace.tla, crash-aware) and the rewrite stream of
 	// every unit (WorkUnitTrace.tla, crash-aware); the Go acceptor looks at the same streams
